@@ -67,6 +67,20 @@ def tokenize(text):
             j = text.find("\n", i)
             i = n if j < 0 else j
             continue
+        if c in "xXbBoO" and i + 1 < n and text[i + 1] == '"' and not (toks and toks[-1].kind == "id" and False):
+            # based bit-string literal  x"A5" / b"1010" / o"17"  (VHDL-93): the same value as the binary string
+            j = text.find('"', i + 2)
+            if j < 0:
+                raise VhdlSyntaxError(f"line {line}: unterminated bit-string literal")
+            digits = text[i + 2 : j].replace("_", "")
+            per = {"x": 4, "b": 1, "o": 3}[c.lower()]
+            try:
+                bits = "".join(format(int(d, 2 ** per), f"0{per}b") for d in digits)
+            except ValueError:
+                raise VhdlSyntaxError(f"line {line}: bad digit in bit-string literal {text[i:j + 1]}")
+            toks.append(Tok("str", bits, line))
+            i = j + 1
+            continue
         if c.isalpha() or c == "_":
             # note: an identifier starting with '_' is illegal VHDL; it is tokenised as an
             # identifier anyway and flagged by the static checker (identifier grammar).
